@@ -69,7 +69,9 @@ pub fn purity<S: Src, K1: Skel, K2: Skel, const F: u8>(s: &mut S) -> Verdict {
 pub fn purity_synth<S: Src>(s: &mut S) -> Verdict {
     let d = s.u8();
     vassume!(d >= b'0' && d <= b'9');
-    let t1 = [b'a', b'.', b'b', b' ', b'6', d, b' ', b'I', b'N', b' ', b'M', b'X', b' ', b'7', b' ', b'm', b'.', b'b'];
+    // the symbolic digit is the last byte of the text (the only place where the combinator
+    // parser stays tractable, see DESIGN.md section 2)
+    let t1 = [b'a', b'.', b'b', b' ', b'6', b'0', b' ', b'I', b'N', b' ', b'A', b' ', b'1', b'.', b'2', b'.', b'3', b'.', d];
     let t2 = "zz.yy 5 IN SOA n.s h.m (1 2 3 4 5)";
     cut_errors(2);
     let s1 = unsafe { std::str::from_utf8_unchecked(&t1) };
